@@ -32,6 +32,16 @@ CONSTANTS Keys,        \* 1..NKeys
           L0L0KeepsTombstones,   \* TRUE: an L0->L0 compaction always keeps deletion markers (the
                                  \* repaired code); FALSE: only when a lower level overlaps (the
                                  \* code before the repair, which loses them - see DESIGN section 7)
+          BaseSkip,    \* levelTargets derives the base level from level sizes.
+                       \* "none": it is never below a non-empty level (the repaired code: clamp at
+                       \*   the first non-empty level);
+                       \* "skip": when the last level shrinks it returns to a lower level while
+                       \*   tables still sit in the levels above it, and L0->Lbase jumps over them
+                       \*   (the code before the repair: ReadStable fails, DESIGN section 9.4);
+                       \* "checked": as "skip", but subcompact counts the skipped levels as
+                       \*   overlapping - a repair that was considered and that TLC refutes (the
+                       \*   kept marker now lies below the older version and a last-level rewrite
+                       \*   drops it)
           MaxId        \* bound on table ids (model constraint)
 
 VARIABLES mt, imm, L0, lv, nextTs, discardTs, nextId, written
@@ -154,8 +164,11 @@ Prefix(i, acc) == IF i > Len(L0) THEN i - 1
                   ELSE IF acc = {} \/ Ovl(acc, L0[i].ents) THEN Prefix(i + 1, acc \cup L0[i].ents)
                   ELSE i - 1
 
-\* the base level: every level above it is empty (superset of levelTargets' choices)
-CanBeBase(b) == \A i \in Levels : i < b => lv[i] = {}
+\* the base level: any level with every level above it empty is a superset of what levelTargets
+\* returns once it is clamped at the first non-empty level; without the clamp any level is possible.
+CanBeBase(b) == BaseSkip # "none" \/ \A i \in Levels : i < b => lv[i] = {}
+\* the levels an L0->Lbase compaction jumps over
+OverlapSkipped(es, b) == \E i \in Levels : i < b /\ \E t \in lv[i] : Ovl(es, t.ents)
 
 L0ToBase(b) ==
     /\ Len(L0) > 0 /\ CanBeBase(b) /\ nextId <= MaxId
@@ -163,7 +176,8 @@ L0ToBase(b) ==
            top == {L0[i] : i \in 1..n}
            bot == {t \in lv[b] : Ovl(Ents(top), t.ents)}
            all == Ents(top) \cup Ents(bot)
-           out == Out(all, OverlapBelow(all, b + 1), discardTs)
+           hasOverlap == OverlapBelow(all, b + 1) \/ (BaseSkip = "checked" /\ OverlapSkipped(all, b))
+           out == Out(all, hasOverlap, discardTs)
        IN /\ L0' = SubSeq(L0, n + 1, Len(L0))
           /\ lv' = [lv EXCEPT ![b] = (@ \ bot) \cup (IF out = {} THEN {} ELSE {NewTable(out, FALSE)})]
     /\ nextId' = nextId + 1
@@ -262,6 +276,14 @@ Structure ==
     /\ \A i \in Levels : \A a, b \in lv[i] : a # b => ~Ovl(a.ents, b.ents)
     /\ \A t \in L0set \cup UNION {lv[i] : i \in Levels} : t.ents # {}
     /\ \A a, b \in L0set \cup UNION {lv[i] : i \in Levels} : a # b => a.id # b.id
+
+\* the age order every compaction relies on when it decides that nothing older can resurface:
+\* for one key, whatever sits in a higher container (memtables, then level 0 as a whole, then
+\* level 1, ...) is newer than whatever sits in a lower one
+Rank(r) == IF r = -1 THEN mt \cup UNION {imm[i] : i \in DOMAIN imm}
+           ELSE IF r = 0 THEN Ents(L0set) ELSE Ents(lv[r])
+AgeOrdered == \A i, j \in -1..MaxLevel : i < j =>
+                  \A e \in Rank(i), f \in Rank(j) : e.k = f.k => e.ts > f.ts
 
 \* nothing is ever invented
 NoInvention == AllEnts \subseteq written
